@@ -1097,6 +1097,14 @@ impl<A: Subject> Runner<A> {
         if or & O_RELEASE != 0 && post.allocated as usize > pre.allocated as usize {
           v.push(Viol { flag: O_RELEASE, class: "top-release-grew".into(), msg: "cursor grew on release".into() });
         }
+        // given back to the fresh space: the same bytes must not also be counted as discarded or listed
+        if post.allocated < pre.allocated && (post.discarded != pre.discarded || post.nodes != pre.nodes) {
+          for flag in [O_RELEASE, O_DISCARDED] {
+            if or & flag != 0 {
+              v.push(Viol { flag, class: "top-release-counted-twice".into(), msg: format!("{}: cursor {} -> {} and also discarded {} -> {}, nodes {:?} -> {:?}", op.short(), pre.allocated, post.allocated, pre.discarded, post.discarded, pre.nodes, post.nodes) });
+            }
+          }
+        }
         if or & O_RELEASE != 0 && (post.allocated as usize) < boff && post.nodes == pre.nodes {
           v.push(Viol { flag: O_RELEASE, class: "released-too-much".into(), msg: format!("{}: cursor {} -> {} below the released extent [{},{})", op.short(), pre.allocated, post.allocated, boff, boff + bcap) });
         }
